@@ -87,3 +87,67 @@ pub fn history_sweep<F: Fn(&[Op]) -> CaseResult + Sync>(c: &Ctx, len: u32, salt:
     c.class_n(&format!("history-sweep:{}:len{}", label, len), ran.load(std::sync::atomic::Ordering::Relaxed));
     c.note(&format!("history_sweep_{}_len{}", label, len), json!({"alphabet": k, "seed_prefixes": seeds.len(), "sequences": ran.load(std::sync::atomic::Ordering::Relaxed), "of": total}));
 }
+
+/// Calls whose path argument is not valid UTF-8 (a Latin-1 file name built from bytes; legal on Linux, and the
+/// argument type is `AsRef<Path>`), after every seed prefix. Returns, per call, its description, whether it
+/// reported failure, whether the complete state (hook H2, order-normalised) is what it was before the call, and
+/// what `integrity` finds afterwards. Each call runs on a fresh instance.
+pub fn odd_path_calls() -> Vec<(String, Result<bool, String>, bool, Vec<(String, String)>)> {
+    use std::os::unix::ffi::OsStringExt;
+    use rivia::prelude::*;
+    let odd = |b: &[u8]| std::path::PathBuf::from(std::ffi::OsString::from_vec(b.to_vec()));
+    let norm = |mut d: rivia::verif::Dump| {
+        d.entries.sort_by(|a, b| a.key.cmp(&b.key));
+        for e in d.entries.iter_mut() {
+            if let Some(c) = e.children.as_mut() {
+                c.sort();
+            }
+        }
+        d.files.sort_by(|a, b| a.key.cmp(&b.key));
+        d
+    };
+    let mut out = vec![];
+    let odd_paths: Vec<Vec<u8>> = vec![b"/caf\xe9".to_vec(), b"/a/caf\xe9".to_vec(), b"caf\xe9".to_vec(), b"/\xff/x".to_vec(), b"/a/\xe9t\xe9/deep".to_vec(), b"/a/./caf\xe9/".to_vec()];
+    for (si, seed) in seeds().iter().enumerate() {
+        for ob in &odd_paths {
+            for call in 0..14usize {
+                let m = Memfs::new();
+                for op in seed {
+                    let _ = crate::fsapply::apply(&m, op);
+                }
+                if si > 0 && call % 2 == 1 {
+                    let _ = m.set_cwd("/a");
+                }
+                let before = norm(m.verif_dump());
+                let p = odd(ob);
+                let r = catch(|| -> Result<(), String> {
+                    match call {
+                        0 | 1 => m.mkfile(&p).map(|_| ()),
+                        2 => m.mkdir_p(&p).map(|_| ()),
+                        3 => m.mkdir_m(&p, 0o750).map(|_| ()),
+                        4 | 5 => m.write_all(&p, b"data"),
+                        6 => m.append_all(&p, b"data"),
+                        7 => m.symlink(&p, "/a").map(|_| ()),
+                        8 => m.symlink("/n", &p).map(|_| ()),
+                        9 => m.copy("/a/a", &p),
+                        10 => m.move_p("/a/a", &p),
+                        11 => m.set_cwd(&p).map(|_| ()),
+                        12 => m.mkfile_m(&p, 0o600).map(|_| ()),
+                        _ => m.remove_all(&p),
+                    }
+                    .map_err(|e| e.to_string())
+                });
+                let after = norm(m.verif_dump());
+                let names = ["mkfile", "mkfile", "mkdir_p", "mkdir_m", "write_all", "write_all", "append_all", "symlink(link)", "symlink(target)", "copy(dst)", "move_p(dst)", "set_cwd", "mkfile_m", "remove_all"];
+                let desc = format!("{}({:?}) after seed prefix {}{}", names[call], p, si, if si > 0 && call % 2 == 1 { " from cwd /a" } else { "" });
+                let res = match r {
+                    Ok(Ok(())) => Ok(false),
+                    Ok(Err(_)) => Ok(true),
+                    Err(pn) => Err(pn),
+                };
+                out.push((desc, res, before == after, crate::fsapply::integrity(&after)));
+            }
+        }
+    }
+    out
+}
